@@ -94,9 +94,16 @@ func newChain() *Chain {
 	return c
 }
 
+// extraDenoms: further denominations every actor is funded with at genesis (module files append in init()).
+var extraDenoms []string
+
 func initialBalances() sdk.Coins {
 	big := sdkmath.NewInt(1_000_000_000_000_000).Mul(sdkmath.NewInt(1_000_000))
-	return sdk.NewCoins(sdk.NewCoin("stake", big), sdk.NewCoin("uatom", big), sdk.NewCoin("ubtc", big), sdk.NewCoin("ueth", big))
+	coins := sdk.NewCoins(sdk.NewCoin("stake", big), sdk.NewCoin("uatom", big), sdk.NewCoin("ubtc", big), sdk.NewCoin("ueth", big))
+	for _, d := range extraDenoms {
+		coins = coins.Add(sdk.NewCoin(d, big))
+	}
+	return coins
 }
 
 // X is the context of one executed history.
